@@ -1505,6 +1505,21 @@ def c10_family(tier, rnd):
                      Open(name="i", tr="", sub=("content", structure, al.call("content", cvals)), sattr=[]), CLOSE,
                      CLOSE, Text("post")]
             add(items, al, "T11:%s:%s" % (structure, v), v)
+    # T12: tal:replace and tal:on-error on an element marked i18n:translate (with and without explicit id): the inserted value
+    # is the message id, or the default of the explicit id; `default` renders (and translates) the element itself; the
+    # fallback's start tag carries the translated static attributes
+    rvals = [S("a"), S("h"), NONE, DEFAULT, I(7)] if not quick else [S("h"), NONE, DEFAULT, I(7)]
+    for tid in ("", "msg-id"):
+        for v in variants:
+            al = Alloc(tier)
+            items = [Text("pre"), Open(name="div", i18n={"d": "dom", "c": "ctx"}, sattr=[]),
+                     Open(name="p", tr=tid, sub=("replace", False, al.call("replace", rvals + ([OBJ("msg")] if not tid else []))), sattr=["class"]),
+                     Text("Hello  \n "), Open(name="b", nm="who", sattr=[]), Text("N"), CLOSE, Text(" !"), CLOSE,
+                     Open(name="section", oe=(False, al.call("onerror", [S("a"), S("h"), NONE] + ([OBJ("msg")] if not tid else []))), tr=tid,
+                          sattr=["class", "title"], ia=[("title", "")], i18n={"t": "fr"}),
+                     Text("Body ", al.call("content", [S("a"), EXC("ZeroDivisionError")])), CLOSE,
+                     CLOSE, Text("post")]
+            add(items, al, "T12:%s:%s" % (tid or "-", v), v)
     # T8: the translation settings of a subtree that failed under tal:on-error end with it
     for sets in ({"d": "inner"}, {"c": "ic", "t": "fr"}, {"d": "inner", "c": "ic", "t": "de"}):
         for outer in ({}, {"d": "outer"}):
